@@ -47,11 +47,17 @@ def gen_script(rng, nruns, long_pauses):
     for r in range(nruns):
         # between runs: sometimes reconfigure the trigger
         x = rng.random()
-        if x < 0.45:
+        if x < 0.35:
             cur = not cur
             ctl.append("e" if cur else "d")
-        elif x < 0.55:
+        elif x < 0.45:
             ctl.append("e" if cur else "d")
+        elif x < 0.65:
+            # several re-configurations while stopped (switching the trigger off fires it: what that leaves behind must
+            # not count in the next gated run)
+            for _ in range(rng.randint(2, 3)):
+                cur = not cur
+                ctl.append("e" if cur else "d")
         if rng.random() < 0.15:
             ctl.append(rng.choice("TXp"))          # trigger / stop while not running: HAL no-ops
         ctl.append("S")
@@ -542,6 +548,8 @@ EXH_SCRIPTS = [
     ("SXS", "GG", 0),               # restart with a call pending across it
     ("SXSTX", "WGG", 1),            # the D9 shape: the second gated run starts with whatever the first left behind
     ("SdX", "G", 1),                # triggering switched off under a waiting streamer
+    ("deSX", "G", 1),               # switched off (fires the trigger) and on again while stopped, then a gated run without trigger
+    ("SXdeSTX", "WGG", 1),
     ("STTX", "GG", 1),
 ]
 
